@@ -151,6 +151,27 @@ func runC16(c *Ctx, r *Report) {
 	c.checkEscapeReaders(r, "C16.R6")
 	r.Rule("C16.R7", "token text is an owned copy: none of the front-end packages (lexer, token, parser, ast) imports unsafe, so the text the readers build with string(input[a:b]) cannot share storage with the caller's buffer")
 	c.checkOwnedTokenText(r, "C16.R7")
+	r.Rule("C16.R8", "what is skipped between tokens is whitespace only: lexer.isWhiteSpace, folded on all 256 byte values, holds for space, tab, line feed and carriage return and for nothing else (every other byte belongs to a token)")
+	{
+		isWS := c.Fn("lexer", "isWhiteSpace")
+		ws, ok := c.ByteSet(isWS)
+		if !ok {
+			r.Undecided("C16.R8: cannot fold lexer.isWhiteSpace on the 256 byte values")
+		} else {
+			var extra, missing []string
+			for b := 0; b < 256; b++ {
+				want := b == ' ' || b == '\t' || b == '\n' || b == '\r'
+				if ws[b] && !want {
+					extra = append(extra, fmt.Sprintf("%#02x", b))
+				}
+				if !ws[b] && want {
+					missing = append(missing, fmt.Sprintf("%#02x", b))
+				}
+			}
+			r.Check(len(extra) == 0 && len(missing) == 0, "C16.R8", "lexer.isWhiteSpace", "the bytes skipped between tokens are space, tab, LF and CR", c.Pos(c.SSAFn(isWS).Pos()),
+				fmt.Sprintf("isWhiteSpace also holds for %v (and not for %v): those bytes are skipped silently between tokens, so they belong to no token and the tokens no longer tile the input (0x85 and 0xa0 are the second bytes of ordinary UTF-8 letters)", extra, missing))
+		}
+	}
 	r.Rule("C16.R4", "sticky end marker: NextToken returns the end marker only when the position is past the end of the input (a NUL byte inside the input is not the end)")
 
 	li := c.lexerInfo()
